@@ -39,6 +39,24 @@ PROPS["C16"] = {
     "trusted": ["tm-db MemDB / tendermint iavl as the base store (behaves like a sorted map; exercised by T1 on both)"],
 }
 
+PROPS["C15"] = {
+    "lean_modules": ["Posmint.Props.C15"],
+    "namespaces": ["Posmint.Props.C15"],
+    "required_theorems": ["Posmint.Props.C15.get_refines", "Posmint.Props.C15.set_refines", "Posmint.Props.C15.delete_refines",
+                          "Posmint.Props.C15.write_refines", "Posmint.Props.C15.iter_refines", "Posmint.Props.C15.discard_frame",
+                          "Posmint.Props.C15.parent_frame_set"],
+    "t1": KV_T1,
+    "t3": ["cachekv_locking"],
+    "rule": KV_RULE,
+    "assumptions": ["keys are byte strings (every element < 256): Store.BytesOK, proved to be preserved by every operation; without it the prefix-layer "
+                    "iteration theorem is false (iter_refines_needs_bytes)",
+                    "what an already open iterator yields after Write() or after a direct write to the parent depends on the parent store "
+                    "(MemDB reads values live, IAVL is a snapshot) and is outside the statement; the generator does not do it",
+                    "concurrency: each of Get/Has/Set/Delete/Write/iterator runs under the store mutex (T3 fact cachekv_locking pins this against "
+                    "the source); data-race freedom itself is a runtime property the Lean model cannot exhibit"],
+    "trusted": ["tm-db MemDB / tendermint iavl as the base store", "Go's sync.Mutex"],
+}
+
 # development-only entry: the chain family with all monitors, no Lean module (not in MANIFEST)
 PROPS["XCHAIN"] = {
     "lean_modules": [], "namespaces": [],
@@ -49,6 +67,18 @@ PROPS["XCHAIN"] = {
 NOT_APPLICABLE = {}
 
 MANIFEST_TEXT = {
+    "C15": {
+        "text": "Lean refinement theorems for the cachekv model (the code's own structures: cache map, unsorted set, sorted list, dirtyItems merge, "
+                "memIterator, and the merge iterator as the code's skip/next state machine): Get/Has/Set/Delete refine the overlay view at any "
+                "nesting depth, the parent is unchanged until Write, Write leaves the parent holding exactly the view and the wrapper clean, "
+                "discarding leaves no effect, and iteration over any range/direction yields exactly the sorted, duplicate-free, tombstone-free "
+                "in-range entries of the view (by induction over the stack of mem/cache/prefix layers). Tied to store/cachekv by differential runs "
+                "of generated programs (writes under open iterators, nested wrappers, MemDB and IAVL parents). Partial: goroutine interleavings "
+                "and data races are runtime behaviour; the locking discipline is pinned by a go/ast fact (T3).",
+        "note": "Lean kernel + 3 standard axioms; hand-written model tied by T1; byte-ness of keys is an explicit preserved invariant; "
+                "mutex discipline checked structurally, not proved",
+        "technique": "Lean 4 refinement proof over executable model + differential correspondence",
+    },
     "C16": {
         "text": "Lean theorems over the wrapper model: [p, PrefixEndBytes p) is exactly the keys with prefix p (incl. trailing 0xFF / all-0xFF); "
                 "prefix view, isolation of set/delete and iteration; ConsumeGas = exact sum with out-of-gas exactly at the crossing charge and overflow "
